@@ -341,6 +341,26 @@ func CheckC16(run *evid.Run) {
 		if b >= a {
 			b++
 		}
+		if i%4 == 1 {
+			// directed shape: b is an older snapshot of a (plus 0-2 entries of its own)
+			h.Shape, h.Replicas, h.Writers, h.ReplicaWriter, h.Steps = "older-snapshot", 2, 2, []int{0, 1}, nil
+			a, b = 0, 1
+			k := 0
+			app := func(r int) {
+				k++
+				h.Steps = append(h.Steps, hx.Step{Op: "append", R: r, PC: 1, Payload: fmt.Sprintf("%d.%d/s%d", h.Seed, h.Idx, k)})
+			}
+			for n := 1 + rng.Intn(4); n > 0; n-- {
+				app(0)
+			}
+			h.Steps = append(h.Steps, hx.Step{Op: "join", R: 1, S: 0})
+			for n := 1 + rng.Intn(5); n > 0; n-- {
+				app(0)
+			}
+			for n := rng.Intn(3); n > 0; n-- {
+				app(1)
+			}
+		}
 		useEmpty := i%9 == 4
 		exec := func() *hx.Exec {
 			x := hx.NewExec(h)
@@ -427,9 +447,12 @@ func CheckC16(run *evid.Run) {
 		}
 		// sequences: a log that was already trimmed by a bounded merge is merged again (with the same
 		// source, i.e. an older snapshot of what it dropped, or with another replica)
-		if total >= 3 && i%2 == 0 {
+		for rep := 0; rep < 2 && total >= 3; rep++ {
 			n1 := 1 + rng.Intn(total-1)
 			c := rng.Intn(h.Replicas)
+			if rng.Intn(2) == 0 {
+				c = a // the same source again
+			}
 			second := func(x *hx.Exec) *ipfslog.IPFSLog {
 				if c == a {
 					return src(x)
@@ -486,6 +509,8 @@ func CheckC16(run *evid.Run) {
 						run.NonTrivial(shape + "/seq/" + fmt.Sprint(n1 < total/2))
 					}
 				}
+			} else {
+				run.Violate("C16/panic", det("sequence", true), histSample(h), "bounded merge followed by an unbounded merge panicked: %v", p1)
 			}
 		}
 		run.Eval(1)
